@@ -169,3 +169,64 @@ def lazy_struct(self, eager, data0, context, path, j):
         if nm:
             v = lz[j]
             assert v == ev[nm], "an accessed member is the value eager parsing returns"
+
+
+def labels_accepted(self, x, context, path):
+    """C02 / C13 for the label tables (Enum, Mapping): whatever _decode returns for a parsed value, _encode accepts, and gives the
+    parsed value back - under the hypothesis that the two tables are the ones the constructor builds from one mapping (constructor
+    contract: the encode table sends each label that decoding can yield to the value it was decoded from)."""
+    try:
+        v = self._decode(x, context, path)
+    except Exception:
+        return
+    y = self._encode(v, context, path)
+    assert y == x, "encoding the decoded label gives the parsed value back"
+
+
+def flags_accepted(self, x, context, path):
+    """C02 / C13 for FlagsEnum: the container of flags that _decode returns is accepted by _encode (every key it holds is a label of
+    the table or the private _flagsenum marker, which encode ignores)"""
+    try:
+        v = self._decode(x, context, path)
+    except Exception:
+        return
+    self._encode(v, context, path)
+
+
+def canonical_list(self, data0, context, path, j):
+    """C02 for constructs whose value is a list (j is an arbitrary index; list equality is element-wise): whenever parse accepts a
+    byte string, build accepts the value and returns an equal one, the rebuilt bytes are not longer than the accepted input, they
+    parse to an equal value, and building that again gives identical bytes."""
+    s0 = io.BytesIO(data0)
+    try:
+        v = self._parse(s0, context, path)
+    except Exception:
+        return
+    used = s0.tell()
+    s1 = io.BytesIO()
+    r1 = self._build(v, s1, context, path)
+    b1 = s1.getvalue()
+    assert len(r1) == len(v), "build returns as many elements as were parsed"
+    if 0 <= j < len(v):
+        assert r1[j] == v[j], "build returns a value equal to the parsed one"
+    assert len(b1) <= used, "the canonical encoding is not longer than the accepted input"
+    s2 = io.BytesIO(b1)
+    v2 = self._parse(s2, context, path)
+    assert len(v2) == len(v), "re-parsing the rebuilt bytes gives as many elements"
+    if 0 <= j < len(v):
+        assert v2[j] == v[j], "re-parsing the rebuilt bytes gives an equal value"
+    s3 = io.BytesIO()
+    self._build(v2, s3, context, path)
+    b3 = s3.getvalue()
+    assert b3 == b1, "building again gives identical bytes"
+
+
+def canonical_accepts(self, data0, context, path):
+    """the first clause of C02 on its own: whenever parse accepts a byte string, build accepts the value parse returned"""
+    s0 = io.BytesIO(data0)
+    try:
+        v = self._parse(s0, context, path)
+    except Exception:
+        return
+    s1 = io.BytesIO()
+    self._build(v, s1, context, path)
